@@ -58,6 +58,9 @@ def side_partition(ctx, ev, cname, obj, st, label, payload):
     return classes
 
 
+RAW_COMPARISON = set()
+
+
 def reflection(ctx, ev, cname, obj, st, label, payload, own_out):
     msg = mk_app("cat", (Const(PEER[cname]), payload))
     outs = ev.run_method(obj, "finish", [msg], st=st.fork())
@@ -83,6 +86,8 @@ def reflection(ctx, ev, cname, obj, st, label, payload, own_out):
                     if x == own_out and y in accepted:
                         hit = (t, p)
         ok = hit is not None
+        if ok and payload in hit[0].args:
+            RAW_COMPARISON.add(True)      # raw bytes compared: equivalent only under canonical decoding
         ctx.ob("S4", inst, ok, "key-returning path is guarded by 'received element != own outbound element'" if ok else
                "a key-returning path of finish() does not compare the received element with the instance's own outbound message",
                site=o.site, witness=[show(t, maxdepth=5) + "=" + str(p) for t, p in conds])
@@ -110,6 +115,7 @@ def check(ctx, world):
         "contains 'own outbound element != received element', and a ReflectionThwarted path exists whose condition "
         "differs in exactly that atom (the refusal has no other conjunct); S5: same on restored instances.")
     ctx.min_obligations = 45
+    RAW_COMPARISON.clear()
     ev = session.new_ev(world)
     for cname in session.PUBLIC_CLASSES:
         for cm in session.models(world, ev, cname):
@@ -146,3 +152,9 @@ def check(ctx, world):
                                "the restored instance's outbound message %s differs from the one originally sent: reflection of the real message goes undetected"
                                % show(own2, maxdepth=4))
                         reflection(ctx, ev, cname, ro.value, ro.state, "restored", payload, own2)
+
+    if RAW_COMPARISON:
+        # S4-canonical: comparing the *raw* inbound bytes with the own message refuses a reflected
+        # element only if every element has exactly one accepted encoding (C05 D1/D2, both groups)
+        from .common import include
+        include(ctx, world, "c05", "S4-canonical", keep=lambda o: o.rule in ("D1", "D2", "D2-y", "D2-sign"))
